@@ -66,6 +66,11 @@ func findItemIndex(slice []uint32, val uint32) int {
 
 // MarkSessionQer : identify and Mark session QER with flag.
 func (s *PFCPSession) MarkSessionQer(qers []qer) {
+	if len(s.pdrs) == 0 {
+		// no PDR to derive a session QER from
+		return
+	}
+
 	sessQerIDList := make([]uint32, 0)
 	lastPdrIndex := len(s.pdrs) - 1
 	// create search list with first pdr's qerlist */
@@ -87,7 +92,8 @@ func (s *PFCPSession) MarkSessionQer(qers []qer) {
 			return
 		}
 
-		copy(sessQerIDList, sList)
+		// keep only the QER IDs every PDR so far references
+		sessQerIDList = sList
 	}
 
 	// Loop through qer list and mark qer which matches
@@ -102,6 +108,7 @@ func (s *PFCPSession) MarkSessionQer(qers []qer) {
 		sessionIdx int
 		sessionMbr uint64
 		sessQerID  uint32
+		found      bool
 	)
 
 	if len(sessQerIDList) > 3 {
@@ -115,12 +122,18 @@ func (s *PFCPSession) MarkSessionQer(qers []qer) {
 				continue
 			}
 
-			if qer.ulMbr >= sessionMbr {
+			if !found || qer.ulMbr >= sessionMbr {
 				sessionIdx = idx
 				sessQerID = qer.qerID
 				sessionMbr = qer.ulMbr
+				found = true
 			}
 		}
+	}
+
+	if !found {
+		// no eligible QER is shared by all PDRs: nothing is session-wide
+		return
 	}
 
 	logger.PfcpLog.Infoln("session QER found. QER ID:", sessQerID)
